@@ -7,6 +7,8 @@ import (
 	"math"
 	"strings"
 	"time"
+
+	"golang.org/x/tools/go/ssa"
 )
 
 func init() {
@@ -312,4 +314,33 @@ func init() {
 		delete(fr.i.ctx.natives, p)
 		return nil
 	}
+}
+
+// waitExponentialBackoff stands in for k8s.io/apimachinery/pkg/util/wait.ExponentialBackoff:
+// the condition is called up to backoff.Steps times, without sleeping and without jitter
+// (the delays are not observable by a harness, whose clock is its own).
+func waitExponentialBackoff(fr *frame, a []value) value {
+	b := a[0].(structure)
+	steps, ok := b[3].(int)
+	if !ok {
+		panic(engineAbort{"UNSUPPORTED", "wait.ExponentialBackoff with a symbolic number of steps"})
+	}
+	for n := steps; n > 0; n-- {
+		r := call(fr.i, fr, 0, a[1], nil).(tuple)
+		if e := r[1].(iface); e.t != nil {
+			return e
+		}
+		if fr.i.ctx.concBool(r[0]) {
+			return iface{}
+		}
+	}
+	fn := fr.fn
+	for _, p := range fn.Prog.AllPackages() {
+		if p.Pkg.Path() == "k8s.io/apimachinery/pkg/util/wait" {
+			if g, ok := p.Members["ErrWaitTimeout"].(*ssa.Global); ok {
+				return *fr.i.global(g)
+			}
+		}
+	}
+	panic(engineAbort{"ENGINE", "wait.ErrWaitTimeout not found"})
 }
